@@ -500,6 +500,7 @@ def last_newline_shape(p: Program, rep: Report, rule: str) -> None:
     # last_newline = min(last LF or len, last CR or len)
     lpaths, lcol, lit = run_paths(p, ln, dec, raises=lambda c, i, callee, node: ["ValueError"] if callee[0] == "attr" and callee[2] in ("rindex", "index") else [])
     seen = set()
+    bounded_scan: list = []
     for pa in lpaths:
         if pa.exit != "return":
             rep.violation(rule, construct(ln, text=f"raises {pa.value}"), where(ln), f"last_newline lets {pa.value} escape when the buffer has no line break")
@@ -508,6 +509,8 @@ def last_newline_shape(p: Program, rep: Report, rule: str) -> None:
 
         def kind(x: Value) -> Optional[str]:
             if x[0] == "call" and x[1][0] == "attr" and x[1][2] in ("rindex", "rfind") and x[1][1] == BUF and x[2] and x[2][0][0] == "const":
+                if len(x[2]) > 1 or x[3]:
+                    bounded_scan.append(x)  # rindex(sub, start[, end]): only part of the buffer is searched
                 return {b"\n": "LF", b"\r": "CR"}.get(x[2][0][1])
             if x[0] == "call" and x[1] == ("builtin", "len") and x[2] == (BUF,):
                 return "LEN"
@@ -539,7 +542,12 @@ def last_newline_shape(p: Program, rep: Report, rule: str) -> None:
             rep.violation(rule, construct(ln, text=f"return {show(v)[:60]}"), where(ln), "last_newline is not the minimum of the last LF index and the last CR index (each defaulting to len(buffer))")
             seen.add(("bad",))
     want = {("CR", "LF"), ("LEN", "LF"), ("CR", "LEN"), ("LEN", "LEN")}
-    if seen == want:
+    if bounded_scan:
+        x = bounded_scan[0]
+        rep.violation(rule, construct(ln, text=f"bounded scan {show(x)[:60]}"), where(ln),
+                      f"last_newline searches only part of the buffer ({show(x)[:60]}): a start index computed from the buffer length goes negative for a short buffer and then counts from the "
+                      "END, so a line break at the start of a short buffer (a partial delimiter after a chunk edge) is missed and the delimiter is emitted as part data")
+    elif seen == want:
         rep.ok(rule, "last_newline = min(last LF | len(buffer), last CR | len(buffer)) on all four paths")
     elif ("bad",) not in seen:
         rep.violation(rule, construct(ln, text=f"cases {sorted(seen)}"), where(ln), f"last_newline does not cover the four cases LF/CR present or absent (found {sorted(seen)})")
